@@ -73,3 +73,28 @@ Proof.
   rewrite norm_idem by (unfold wf_shape; cbn; lia).
   unfold norm. cbn [sgn width]. unfold mask. rewrite Z.mod_small by lia. lia.
 Qed.
+
+(* ---------- an assignable target never raises "cannot be assigned" ---------- *)
+Theorem tb_assign_no_error lhs : wf_lhs lhs = true -> forall curr start len, tb_assign_err curr lhs start len = false.
+Proof.
+  induction lhs as [v s|j s|o a IHa|o a b0 IHa IHb|a lo hi IHa|a off w st IHa IHoff|l IH|t cs IHt IHcs]
+    using expr_ind'; intros Hwf curr start len; cbn [wf_lhs] in Hwf; try discriminate.
+  - reflexivity.
+  - destruct o; try discriminate; cbn [tb_assign_err]; apply IHa; apply andb_prop in Hwf; tauto.
+  - cbn [tb_assign_err]. destruct (hi - lo <=? start); [reflexivity|]. apply IHa.
+    repeat (apply andb_prop in Hwf; destruct Hwf as [Hwf ?]). exact Hwf.
+  - cbn [tb_assign_err]. destruct (w <=? start); [reflexivity|]. apply IHa.
+    repeat (apply andb_prop in Hwf; destruct Hwf as [Hwf ?]). exact Hwf.
+  - cbn [tb_assign_err].
+    match goal with |- ?f l 0 = false => enough (Hall : forall ps0, f l ps0 = false) by apply Hall end.
+    induction IH as [|p l Hp HF IHl]; intros ps0; [reflexivity|].
+    cbn [forallb] in Hwf. apply andb_prop in Hwf. destruct Hwf as [Hp' Hl'].
+    cbv zeta. destruct (ps0 + ewidth p <=? start); [apply (IHl Hl')|].
+    destruct (start + len <=? ps0); [apply (IHl Hl')|].
+    rewrite (Hp Hp'). cbn [orb]. apply (IHl Hl').
+  - cbn [tb_assign_err]. apply andb_prop in Hwf. destruct Hwf as [_ Hcs].
+    induction IHcs as [|c l Hc HF IHl]; [reflexivity|].
+    cbn [forallb] in Hcs. apply andb_prop in Hcs. destruct Hcs as [Hc' Hl'].
+    apply andb_prop in Hc'. destruct Hc' as [Hc' _].
+    cbv zeta. destruct (tb_case_match (eval_tb curr t) (fst c)); [apply Hc; auto|apply (IHl Hl')].
+Qed.
